@@ -9,6 +9,9 @@ def natsOf (l : Option (List Int)) : List Nat := (l.getD []).map Int.toNat
 
 def runConvOp (attrs : Json) (ins : List (Option DT)) : Answer :=
   match ins with
+  | [some ⟨_, _, some _⟩, some _, _] | [some _, some ⟨_, _, some _⟩, _] =>
+    -- operands carried bit for bit (special values, fractions): judged by the direct convolution of the comparator
+    { model := { status := "unmodelled" }, tags := ["float-bits"] }
   | [some X, some W, B] =>
     let names := attrNames attrs
     if names.any (fun n => !["auto_pad", "dilations", "group", "kernel_shape", "pads", "strides"].contains n) then
